@@ -917,6 +917,45 @@ func isIREValue(fc *FuncCtx, b *ssa.BasicBlock, ev ssa.Value, ire *types.Named, 
 			}
 			return false
 		}
+		// the error object handed to a helper that completes and returns it (reject(retErr, err)): every caller passes
+		// the address of a literal, and the helper sets PrivateErr before it returns
+		if prm, ok := x.X.(*ssa.Parameter); ok && namedOf(prm.Type()) == ire && (fc.Fn.Object() == nil || !fc.Fn.Object().Exported()) {
+			idx := -1
+			for i, q := range fc.Fn.Params {
+				if q == prm {
+					idx = i
+				}
+			}
+			sites := fc.A.P.CallersOf(fc.Fn)
+			if idx < 0 || len(sites) == 0 {
+				return false
+			}
+			for _, cs := range sites {
+				arg := cs.Arg(idx)
+				if arg == nil {
+					return false
+				}
+				if _, isAlloc := capturedValue(arg).(*ssa.Alloc); !isAlloc {
+					return false
+				}
+			}
+			for _, bb := range fc.Fn.Blocks {
+				for _, in := range bb.Instrs {
+					st, ok := in.(*ssa.Store)
+					if !ok {
+						continue
+					}
+					fa, ok := st.Addr.(*ssa.FieldAddr)
+					if !ok || fa.X != ssa.Value(prm) || fieldName(fa.X.Type(), fa.Field) != "PrivateErr" {
+						continue
+					}
+					if bb == b || bb.Dominates(b) {
+						return true
+					}
+				}
+			}
+			return false
+		}
 	case *ssa.Extract:
 		if c, ok := x.Tuple.(*ssa.Call); ok {
 			if scf := c.Call.StaticCallee(); scf != nil && fam[scf] && (scf.Object() != nil && scf.Object().Exported() || returnsVerbatimTo(fc.A.P, scf, fam)) {
